@@ -356,6 +356,7 @@ static void xml_show_fail(TestReporter *reporter, const char *file, int line,
     xmlTextWriterEndElement(child_output_writer); // </location>
     xmlTextWriterEndElement(child_output_writer); // </failure>
     xmlTextWriterFlush(child_output_writer);
+    fflush(child_output_tmpfile);
 }
 
 static xmlAttrPtr xmlFormatProp(xmlNodePtr node, const xmlChar* name, const char *format, ...)
